@@ -332,6 +332,10 @@ func c05Lib(i int64, seed uint64, r *fw.Rec) {
 		return
 	}
 	if i%9 == 6 {
+		if i%450 == 6 {
+			c05Clock(i, seed, r)
+			return
+		}
 		c05Rebind(i, seed, r)
 		return
 	}
